@@ -614,3 +614,31 @@ pub fn exec_slx(toks: &[&str]) -> String {
         Err(()) => format!("unbounded {}", counts),
     }
 }
+
+// ------------------------------------------------------------------ K1: the 16-bit generation ABA, replayed on the real code
+/// `slaba`: a reader is stalled inside ONE snapshot attempt (after its first generation load and three
+/// cell loads) while the real writer completes exactly 32767 updates, which brings the generation back
+/// to the value the reader started from; the reader then finishes the copy and re-checks.
+pub fn exec_slaba() -> String {
+    let n_updates: u64 = 32767;
+    let mut wops = vec![Op::New];
+    for k in 1..=n_updates { wops.push(Op::Write(k)); }
+    let sc = Scenario { init: "valid 4 90".into(), threads: vec![(true, vec![wops]), (false, vec![vec![Op::Open, Op::Snap]])] };
+    let mut sched: Vec<Entry> = Vec::new();
+    // reader: open, call, version load, generation load, three cell loads (cells 0,1,2: pick todo[0])
+    for _ in 0..7 { sched.push(Entry::Step(1, 0, 0)); }
+    // writer: new (call + version store), then the updates; each update = call + load + store + [fence] + 7 cells + store
+    // (the schedule is generous: surplus entries for a finished thread are answered `done`)
+    let per_update = 1 + 1 + 1 + 1 + 7 + 1;
+    for _ in 0..(2 + n_updates as usize * per_update) { sched.push(Entry::Step(0, 0, 0)); }
+    // reader: remaining four cells, [fence], re-check (+ slack)
+    for _ in 0..8 { sched.push(Entry::Step(1, 0, 0)); }
+    let mut rng = Rng::new(0);
+    let r = run(&sc, Some(sched), &mut rng, usize::MAX);
+    let ret = r.trace.iter().rev().find(|t| t.starts_with("1|ret:")).cloned().unwrap_or_else(|| "1|none".into());
+    let completed = r.trace.iter().filter(|t| t.starts_with("0|ret:w:")).count();
+    let cells: Vec<u64> = ret.rsplit(':').next().unwrap_or("").split(',').filter_map(|x| x.parse().ok()).collect();
+    let old = rec_cells(90); let new = rec_cells(n_updates);
+    let torn = cells.len() == NCELLS && cells != old.to_vec() && cells != new.to_vec() && cells.iter().any(|&c| c != 0);
+    format!("{} updates {} {}", if torn { "torn" } else { "consistent" }, completed, ret.replace('|', "/"))
+}
